@@ -558,7 +558,9 @@ class Gen(object):
             X = self.impl.I[x]
             top = len(names) - 1 if op[0] == 'setattr' else len(names)
             cut = rng.randint(1, max(1, top))
-            txt = '2020' if X.validation_level == STRICT else rng.choice(['B', 'w'])
+            # a value every base datatype takes under both levels: the element may later be copied (as text) into a STRICT
+            # tree, and the numeric / date layer of STRICT is not part of the leaf function of this correspondence
+            txt = '2020' if X.validation_level == STRICT else rng.choice(['2020', '12'])
             r = rng.random()
             if r < .55:
                 self.pending.append(['setattr', x, names[:cut], ['t', txt]])
